@@ -262,6 +262,9 @@ func c01IsFrameTooLarge(err error) bool {
 	return errors.As(err, &fe)
 }
 
+// c01Level is the zlib level for a settings change (netmc fixes one level per writer).
+func c01Level(c c01Case, set *c01Set) int { return set.Level }
+
 // ---- RIG-END
 
 func c01Run(c c01Case) verifkit.Result      { return c01RunMode(c, false) }
@@ -484,9 +487,6 @@ func c01RunMode(c c01Case, bytesRead bool) (res verifkit.Result) {
 	nt := nonEmpty >= 2 && (compBoth || encFrom >= 0 || split)
 	return verifkit.Result{Labels: c01Dedupe(labels), NonTrivial: nt}
 }
-
-// c01Level is the zlib level for a settings change (netmc fixes one level per writer).
-func c01Level(c c01Case, set *c01Set) int { return set.Level }
 
 func c01Dedupe(in []string) []string {
 	seen := map[string]bool{}
